@@ -34,6 +34,22 @@ Theorem C12_average : forall (m s1 d : R) (xs : list R),
 Proof. exact ema_closed_affine. Qed.
 Print Assumptions C12_average.
 
+(* IEEE arithmetic, first batch: a running scale still holding its initial value 1 is REPLACED by the range of the
+   batch, whatever the momentum (float32 / float16 / bfloat16 scales).  With C03_no_saturation_float* (the scale
+   absmax/qmax saturates no element of the tensor it was computed from beyond rounding) this is the last sentence of
+   the property: after a single batch no activation of that batch saturates. *)
+From QV Require Import Float.F Proofs.CalibFloat.
+Theorem C12_first_batch_float32 : forall (new : tensor f32) (mom : b64),
+  @src_updated_scale f32 Num32 (T [] [@n_of_Z f32 Num32 1%Z]) new mom = Ok new.
+Proof. rewrite tie_updated_scale. exact first_batch_f32. Qed.
+Theorem C12_first_batch_float16 : forall (new : tensor f16) (mom : b64),
+  @src_updated_scale f16 Num16 (T [] [@n_of_Z f16 Num16 1%Z]) new mom = Ok new.
+Proof. rewrite tie_updated_scale. exact first_batch_f16. Qed.
+Theorem C12_first_batch_bfloat16 : forall (new : tensor bf16) (mom : b64),
+  @src_updated_scale bf16 NumB16 (T [] [@n_of_Z bf16 NumB16 1%Z]) new mom = Ok new.
+Proof. rewrite tie_updated_scale. exact first_batch_bf16. Qed.
+Print Assumptions C12_first_batch_float16.
+
 (* the sentinel history (known finding F9): a running scale of exactly 1 re-initialises *)
 Example C12_sentinel_refuted : ema_step (9/10) (1/10) 1 5 = 5%R.
 Proof. exact sentinel_reinitialises. Qed.
